@@ -103,7 +103,7 @@ def floors(tier):
         f[f"variant:hyperedge_dict:{v}"] = 90 * k
     f.update({
         "graph-order:directed": 560 * k,
-        "graph-order:dual": 280 * k,
+        "graph-order:dual": 260 * k,
         "graph-trigger:edge-vertices-inserted-first": 810 * k,
         "graph-trigger:node-vertices-inserted-first": 310 * k,
         "feat:isolated-node": 580 * k,
@@ -122,9 +122,9 @@ def floors(tier):
         "feat:maximal-0-simplex": 180 * k,
         "feat:0-simplex-that-is-a-face": 320 * k,
         "eval:max_simplices-into-complex": 840 * k,
-        "variant:from_hyperedge_list:max_order-not-truncating": 310 * k,
-        "variant:from_hyperedge_list:max_order-truncating": 310 * k,
-        "rejected:colliding-cast": 180 if tier == "quick" else 2400,
+        "variant:from_hyperedge_list:max_order-not-truncating": 270 * k,
+        "variant:from_hyperedge_list:max_order-truncating": 270 * k,
+        "rejected:colliding-cast": 160 if tier == "quick" else 2400,
     })
     return f
 
